@@ -36,6 +36,7 @@ def run(tier, seed, pid='C03', patterns=None):
     for i, c in enumerate(cases):
         qs.append(c.query())
         if c.pat in rec: qs.append(c.query(tag='_rec', oracle_dfa=rec_dfa(rec[c.pat])))
+        else: qs.append(c.table_query())
         if i % (4 if tier == 'quick' else 10) == 0: qs.append(c.query(witness=True))
     results = vlib.run_queries(qs)
     by = {}
@@ -44,6 +45,21 @@ def run(tier, seed, pid='C03', patterns=None):
     ncomplete = 0
     for c in cases:
         r = by['q_rx%d' % c.k]; rr = by.get('q_rx%d_rec' % c.k); w = by.get('q_rx%d_wit' % c.k)
+        tq = by.get('q_rx%d_tab' % c.k)
+        if tq is not None:
+            if tq['status'] == 'unsat': c.complete = True; c.complete_how = 'table'
+            elif tq['status'] == 'inconclusive': R.inconclusive.append('%s (%s): %s' % (tq['id'], c.pat, tq['reason']))
+            elif r['status'] == 'unsat':
+                # the table differs from the reference although no string <= LMAX shows it: find the shortest distinguishing string from a native extraction and replay it
+                import sys; sys.path.insert(0, os.path.join(vlib.VERIF, 'tools'))
+                import rx_extract
+                t, e = rx_extract.extract([c.pat], wd, 'tabrep%d' % c.k)
+                w = rx.equivalent(rx_extract.real_dfa(t[0]), c.ref) if t else None
+                if w is not None:
+                    if not c.batch.native.get(c.k): c.batch.build_native_for(c, 'real')
+                    R.violation('pattern %r: the matcher\'s automaton is not equivalent to the pattern\'s language (table-level check, state %s byte %s); shortest distinguishing subject %s' % (
+                                c.pat, tq['inputs'].get('R'), tq['inputs'].get('C'), vlib.hexs(w)), {'query': tq['id'], 'kind': 'rx', 'pattern': c.pat, 'LMAX': max(c.lmax, len(w)), 'input_hex': vlib.hexs(w)})
+                else: R.inconclusive.append('%s (%s): table-level check fails (%s) but the native automaton is equivalent to the reference' % (tq['id'], c.pat, '; '.join(f['desc'] for f in tq['failed'])[:160]))
         if c.complete: ncomplete += 1
         if w is not None and w['status'] != 'sat': R.inconclusive.append('witness twin for pattern %s not violated (%s)' % (c.pat, w['status']))
         if r['status'] == 'unsat': continue
@@ -63,7 +79,7 @@ def run(tier, seed, pid='C03', patterns=None):
         R.violation('pattern %r, subject %s: %s (reproduces natively: %s)%s' % (c.pat, vlib.hexs(inp), desc, rep['why'][:100],
                     '; the pattern is a listed finding but the matcher no longer behaves as recorded' if rr is not None else ''),
                     {'query': r['id'], 'kind': 'rx', 'pattern': c.pat, 'LMAX': c.lmax, 'input_hex': vlib.hexs(inp), 'failed': r['failed'][:6], 'native': rep})
-    R.extra['patterns'] = len(cases); R.extra['patterns_complete_by_product_bound'] = ncomplete; R.extra['string_bound'] = cap
+    R.extra['patterns'] = len(cases); R.extra['patterns_complete_for_all_string_lengths'] = ncomplete; R.extra['patterns_complete_by_table_equivalence'] = sum(1 for c in cases if getattr(c, 'complete_how', '') == 'table'); R.extra['string_bound'] = cap
     R.samples = [{'pattern': c.pat, 'LMAX': c.lmax, 'ref_states': c.ref.n, 'complete': c.complete} for c in cases[:8]]
     R.outside = ['patterns outside the generated family (symbolic patterns cannot be pushed through dfa_builder::merge, DESIGN 2.2)', 'subject strings longer than LMAX where N*M exceeds it']
     R.assumptions = ['user buffer with explicit symbolic length over a char array', 'reference: Thompson NFA -> subset construction -> minimal DFA over all 256 byte values, from the README table']
